@@ -33,7 +33,7 @@ type stressResult struct {
 	Bad               string
 }
 
-func stressOnce(limit, tasks int, seed uint64) stressResult {
+func stressOnce(limit, tasks int, seed uint64, submitters int) stressResult {
 	r := core.NewRand(seed)
 	res := stressResult{Limit: limit, Tasks: tasks, Seed: seed}
 	var inside, maxInside, finished, handled atomic.Int64
@@ -49,39 +49,53 @@ func stressOnce(limit, tasks int, seed uint64) stressResult {
 	runs := make([]atomic.Int32, tasks)
 	l := goz.NewLimiter(limit).SetPanicHandler(func(v any) {
 		handled.Add(1)
-		id, ok := v.(int)
+		id, ok := -1, true
+		switch x := v.(type) {
+		case int:
+			id = x
+		case scriptedErr:
+			id = x.n
+		case customPanic:
+			id = x.N
+		case *runtime.PanicNilError:
+			id = 0
+		case *int:
+			id = 0
+			ok = x == nil
+		default:
+			ok = false
+		}
 		if !ok || id < 0 || id >= tasks {
 			setBad(fmt.Sprintf("handler received %T %v, not a task's panic value", v, v))
 		}
 	})
 	n := chanCap(l)
 	res.Cap = n
-	for i := 0; i < tasks; i++ {
-		i := i
-		panics := r.Chance(20)
-		spin := r.Intn(4)
-		if panics {
+	// `submitters` goroutines call Go concurrently (the property quantifies over all
+	// schedules of "the submitting goroutine and the workers"; the machine allows any
+	// number of submitters); they are joined before Wait() is called.
+	type sub struct {
+		i, spin, kind int
+		panics        bool
+	}
+	subs := make([]sub, tasks)
+	for i := range subs {
+		subs[i] = sub{i: i, panics: r.Chance(20), spin: r.Intn(4), kind: r.Intn(5)}
+		if subs[i].panics {
 			res.Panics++
 		}
-		l.Go(func() {
-			runs[i].Add(1)
-			c := inside.Add(1)
-			for {
-				m := maxInside.Load()
-				if c <= m || maxInside.CompareAndSwap(m, c) {
-					break
-				}
-			}
-			for j := 0; j < spin; j++ {
-				runtime.Gosched()
-			}
-			inside.Add(-1)
-			finished.Add(1)
-			if panics {
-				panic(i)
-			}
-		})
 	}
+	var sw sync.WaitGroup
+	for g := 0; g < submitters; g++ {
+		sw.Add(1)
+		go func(g int) {
+			defer sw.Done()
+			for j := g; j < tasks; j += submitters {
+				stressSubmit(l, subs[j].i, subs[j].spin, subs[j].kind, subs[j].panics, runs, &inside, &maxInside, &finished)
+			}
+		}(g)
+	}
+	sw.Wait()
 	l.Wait()
 	res.Finished = finished.Load()
 	res.MaxInside = maxInside.Load()
@@ -108,6 +122,38 @@ func stressOnce(limit, tasks int, seed uint64) stressResult {
 	return res
 }
 
+func stressSubmit(l *goz.Limiter, i, spin, kind int, panics bool, runs []atomic.Int32, inside, maxInside, finished *atomic.Int64) {
+	l.Go(func() {
+		runs[i].Add(1)
+		c := inside.Add(1)
+		for {
+			m := maxInside.Load()
+			if c <= m || maxInside.CompareAndSwap(m, c) {
+				break
+			}
+		}
+		for j := 0; j < spin; j++ {
+			runtime.Gosched()
+		}
+		inside.Add(-1)
+		finished.Add(1)
+		if panics {
+			switch kind {
+			case 0:
+				panic(i)
+			case 1:
+				panic(error(scriptedErr{i}))
+			case 2:
+				panic(customPanic{N: i, Tag: "c"})
+			case 3:
+				panic(nil)
+			default:
+				panic((*int)(nil)) // typed nil: a non-nil interface value
+			}
+		}
+	})
+}
+
 func stressExtra(ctx *core.Ctx) (int, string, []core.ExtraFailure) {
 	rounds, tasks := 60, 400
 	if ctx.Tier == "thorough" {
@@ -126,7 +172,11 @@ func stressExtra(ctx *core.Ctx) (int, string, []core.ExtraFailure) {
 		seed := ctx.Rand.Uint64()
 		// watchdog: a round that does not come back is examined with a goroutine dump
 		ch := make(chan stressResult, 1)
-		go func() { ch <- stressOnce(limit, tasks, seed) }()
+		submitters := 1
+		if i%3 == 2 {
+			submitters = 3
+		}
+		go func() { ch <- stressOnce(limit, tasks, seed, submitters) }()
 		var res stressResult
 		select {
 		case res = <-ch:
@@ -160,5 +210,5 @@ func stressExtra(ctx *core.Ctx) (int, string, []core.ExtraFailure) {
 			break
 		}
 	}
-	return total, fmt.Sprintf("%d rounds × %d tasks, max functions inside at once per capacity: %v", rounds, tasks, maxSeen), fails
+	return total, fmt.Sprintf("%d rounds × %d tasks (1 or 3 submitting goroutines; 20%% panicking with int / error / struct / nil / typed-nil values), max functions inside at once per capacity: %v", rounds, tasks, maxSeen), fails
 }
